@@ -264,6 +264,37 @@ def bulk_store(ex, a, idx, v, node):
         body = z3.If(mask.sel(ivs[p]), ex.coerce_elem(a, newv, node), a.sel(*ivs))
         a.set_term(z3.Lambda(ivs, body))
         return
+    # a[..., I] = v with a 1-D integer index array on the last axis (scatter)
+    if isinstance(idx[-1], Arr) and idx[-1].kind == "int" and idx[-1].rank == 1 and all(
+            isinstance(i, _SliceVal) and i.lo is None and i.hi is None for i in idx[:-1]):
+        I = idx[-1]
+        if not (isinstance(v, Arr) and v.rank == a.rank):
+            raise Unsupported("scatter of something else than an array of the target's rank")
+        trusted(ex, "numpy index-array assignment a[..., I] = v with distinct indices: a[..., I[p]] = v[..., p], everything else unchanged")
+        L = I.shape[0]
+        _len_match(ex, v.shape[-1], L, node)
+        dz = to_z3(a.shape[-1], "int")
+        Lz = to_z3(L, "int")
+        ex.oblige("index_scatter", forall_ranges([(0, L)], lambda o: z3.And(I.sel(o) >= 0, I.sel(o) < dz), patterns_fn=lambda o: [I.sel(o)]),
+                  "scattered positions are within [0, size)", node)
+        p_, q_ = z3.Int(fresh_name("p")), z3.Int(fresh_name("q"))
+        ex.oblige("scatter_distinct", z3.ForAll([p_, q_], z3.Implies(z3.And(0 <= p_, p_ < q_, q_ < Lz), I.sel(p_) != I.sel(q_))),
+                  "index array of a scatter has no repeated position (otherwise the last write wins: not modelled)", node)
+        old = a.term
+        new = z3.Const(fresh_name(a.name + "'"), old.sort())
+        lead = [z3.Int(fresh_name("x")) for _ in a.shape[:-1]]
+        f_ = z3.Int(fresh_name("f"))
+        wit = z3.Function(fresh_name("scatpos"), V.INT, V.INT)
+        guard_lead = [z3.And(x >= 0, x < to_z3(s_, "int")) for x, s_ in zip(lead, a.shape[:-1])]
+        a1 = z3.ForAll(lead + [p_], z3.Implies(z3.And(*guard_lead, p_ >= 0, p_ < Lz),
+                                                z3.Select(new, *lead, I.sel(p_)) == to_z3(v.sel(*lead, p_), a.kind)))
+        a2 = z3.ForAll(lead + [f_], z3.Or(z3.Select(new, *lead, f_) == z3.Select(old, *lead, f_),
+                                           z3.And(wit(f_) >= 0, wit(f_) < Lz, I.sel(wit(f_)) == f_)),
+                       patterns=[z3.Select(new, *lead, f_)])
+        ex.assume(a1)
+        ex.assume(a2)
+        a.set_term(new)
+        return
     # slices and fixed positions only
     conds = []
     vidx = []
